@@ -291,13 +291,20 @@ theorem writes_ok : Gen.writes.all allowed = true := by decide
     joint's own (just re-conditioned) distribution, `_reduce_to_single_density` only to the fresh
     copy of the joint, and every entry of the copy's density list is replaced by the result of
     calling (conditioning) the old entry; the Gibbs samplers store `target()`, not `target`. -/
+def expectedCalls : List Gen.C :=
+  [⟨"JointDistribution", "_condition", "_reduce_to_single_density", "fresh"⟩,
+   ⟨"JointDistribution", "_reduce_to_single_density", "_add_constants_to_density", "constructor"⟩,
+   ⟨"JointDistribution", "_reduce_to_single_density", "_add_constants_to_density", "ownDistribution"⟩,
+   ⟨"Gibbs", "__init__", "store-target", "callOfArgument"⟩,
+   ⟨"HybridGibbs", "__init__", "store-target", "callOfArgument"⟩]
+
+/- The comparison is by mutual inclusion (order and multiplicity of the call sites in the source
+   are not observable), and names of locals/parameters are canonicalised by the translator, so a
+   harmless rename or re-ordering of independent statements does not break the obligation. -/
 theorem constants_call_sites_ok :
-    Gen.calls = [⟨"JointDistribution", "_condition", "_reduce_to_single_density", "fresh"⟩,
-                 ⟨"JointDistribution", "_reduce_to_single_density", "_add_constants_to_density", "constructor"⟩,
-                 ⟨"JointDistribution", "_reduce_to_single_density", "_add_constants_to_density", "ownDistribution"⟩,
-                 ⟨"Gibbs", "__init__", "store-target", "callOfArgument"⟩,
-                 ⟨"HybridGibbs", "__init__", "store-target", "callOfArgument"⟩]
-    ∧ Gen.writes.contains ⟨"JointDistribution", "_condition", .fresh, "new_joint", "_densities", "elem:call"⟩ = true := by
+    Gen.calls.all (expectedCalls.contains ·) = true ∧ expectedCalls.all (Gen.calls.contains ·) = true
+    ∧ Gen.writes.any (fun w => w.cls == "JointDistribution" && w.meth == "_condition" && w.recv == .fresh
+          && w.field == "_densities" && w.kind == "elem:call") = true := by
   decide
 
 /-- the write sites the heap model transcribes (class, method, receiver kind, field) -/
@@ -320,11 +327,14 @@ def modelWrites : List (String × String × Gen.Recv × String) :=
    ("Model", "forward", .fresh, "_non_default_args")]                        -- applyModel
 
 /-- **table_matches_model.**  The write sites of the current source (outside the Gibbs samplers'
-    own state) are exactly the ones the heap model transcribes, in source order; no method of the
+    own state) are exactly the ones the heap model transcribes (as sets: every source row is a model row and vice versa); no method of the
     list is missing from the source. -/
+def genRows : List (String × String × Gen.Recv × String) :=
+  (Gen.writes.filter (fun w => !(w.cls == "Gibbs" || w.cls == "HybridGibbs"))).map
+    (fun w => (w.cls, w.meth, w.recv, w.field))
+
 theorem table_matches_model :
-    ((Gen.writes.filter (fun w => !(w.cls == "Gibbs" || w.cls == "HybridGibbs"))).map
-        (fun w => (w.cls, w.meth, w.recv, w.field))) = modelWrites
+    genRows.all (modelWrites.contains ·) = true ∧ modelWrites.all (genRows.contains ·) = true
     ∧ Gen.methodsMissing = [] := by
   decide
 
